@@ -16,11 +16,11 @@ import (
 
 // Stmt is one INSERT / UPDATE / DELETE.
 type Stmt struct {
-	Kind string  `json:"kind"`           // ins upd del
-	Keys []Val   `json:"keys,omitempty"` // ins: one per row; upd/del: WHERE k = / IN (...); empty: no WHERE
+	Kind string   `json:"kind"`           // ins upd del
+	Keys []Val    `json:"keys,omitempty"` // ins: one per row; upd/del: WHERE k = / IN (...); empty: no WHERE
 	Cols []string `json:"cols,omitempty"` // ins: named non-key columns; upd: SET columns
-	Vals [][]Val `json:"vals,omitempty"` // ins: per row; upd: Vals[0]
-	T    int64   `json:"t"`              // write time, seconds after baseTime
+	Vals [][]Val  `json:"vals,omitempty"` // ins: per row; upd: Vals[0]
+	T    int64    `json:"t"`              // write time, seconds after baseTime
 }
 
 // wellFormed rejects shapes only a minimiser can produce.
@@ -315,10 +315,10 @@ func (s MSet) Exec(st Stmt, cols []string) (outcome string, added []MOp, matched
 // statement generators
 
 type stmtGenCfg struct {
-	keys      []Val    // key domain (distinct equality classes)
-	cols      []string // non-key columns
-	vals      *rapid.Generator[Val]
-	multiRow  bool // allow multi-row inserts and IN / no-WHERE updates and deletes
+	keys             []Val    // key domain (distinct equality classes)
+	cols             []string // non-key columns
+	vals             *rapid.Generator[Val]
+	multiRow         bool // allow multi-row inserts and IN / no-WHERE updates and deletes
 	wIns, wUpd, wDel int
 }
 
